@@ -7,6 +7,7 @@ import (
 	"time"
 
 	sdk "github.com/cosmos/cosmos-sdk/types"
+	gogotypes "github.com/cosmos/gogoproto/types"
 
 	base "github.com/regen-network/regen-ledger/x/ecocredit/v3/base/types/v1"
 	basket "github.com/regen-network/regen-ledger/x/ecocredit/v3/basket/types/v1"
@@ -744,16 +745,42 @@ func opGov(g *G) bool {
 	return true
 }
 
-// dateCriteria draws one of the four criteria variants.
+// dateCriteria draws one of the four criteria variants; fractional seconds in a quarter of the timestamps and
+// windows, and in the malformed stream values outside the protobuf Timestamp / Duration range (which the chain
+// could store but never export).
 func (g *G) dateCriteria() *basket.DateCriteria {
+	if g.bad() && g.R.Chance(1, 4) {
+		g.bump("criteria:outside-protobuf-range")
+		switch g.R.Intn(6) {
+		case 0:
+			return &basket.DateCriteria{MinStartDate: &gogotypes.Timestamp{Seconds: g.randomDate().Unix(), Nanos: -1 - int32(g.R.Intn(5))}}
+		case 1:
+			return &basket.DateCriteria{MinStartDate: &gogotypes.Timestamp{Seconds: g.randomDate().Unix(), Nanos: 1000000000 + int32(g.R.Intn(5))}}
+		case 2:
+			return &basket.DateCriteria{MinStartDate: &gogotypes.Timestamp{Seconds: 253402300800 + int64(g.R.Intn(5))}}
+		case 3:
+			return &basket.DateCriteria{StartDateWindow: &gogotypes.Duration{Seconds: 86400 * int64(1+g.R.Intn(400)), Nanos: -1 - int32(g.R.Intn(5))}}
+		case 4:
+			return &basket.DateCriteria{StartDateWindow: &gogotypes.Duration{Seconds: 86400, Nanos: 1000000000}}
+		default:
+			return &basket.DateCriteria{StartDateWindow: &gogotypes.Duration{Seconds: 315576000001 + int64(g.R.Intn(5))}}
+		}
+	}
+	frac := int32(0)
+	if g.R.Chance(1, 4) {
+		frac = []int32{1, 999999999, 500000000, 123456789}[g.R.Intn(4)]
+		g.bump("criteria:fractional-seconds")
+	}
 	switch g.R.Intn(4) {
 	case 0:
 		return nil
 	case 1:
-		return chain.MinStartDate(g.randomDate())
+		dc := chain.MinStartDate(g.randomDate())
+		dc.MinStartDate.Nanos = frac
+		return dc
 	case 2:
 		days := []int64{1, 30, 365, 3650, 109575}[g.R.Intn(5)] // 109575 days = 300 years
-		return &basket.DateCriteria{StartDateWindow: durationSec(days * 86400)}
+		return &basket.DateCriteria{StartDateWindow: &gogotypes.Duration{Seconds: days * 86400, Nanos: frac}}
 	default:
 		return &basket.DateCriteria{YearsInThePast: uint32(1 + g.R.Intn(120))}
 	}
